@@ -235,6 +235,22 @@ def call_chain(v):
     return out, v
 
 
+def _lits(fx, v):
+    """The literals a pattern argument stands for — written in place or through a named constant of the workspace."""
+    out = set()
+    for y in A.walk_value(v):
+        if y[0] == "lit":
+            out.add(y[1])
+        elif y[0] == "const" and len(y) >= 2 and y[1] in fx.thir:
+            try:
+                for p in A.Interp(fx, crates=(AGENT,)).explore(y[1]):
+                    if p.ret is not None:
+                        out |= {z[1] for z in A.walk_value(p.ret) if z[0] == "lit"}
+            except A.Undecided:
+                pass
+    return out
+
+
 def r3(chk, fx, t, paths):
     fn = "<Maybe<Candidate>>::read_xml"
     want = ["str::parse", "str::strip_prefix", "str::trim", "str::trim_matches", "Attribute::unescape_value"]
@@ -251,9 +267,9 @@ def r3(chk, fx, t, paths):
             ok, detail = False, " <- ".join(ch)
         for x in A.walk_value(a[2]):
             if x[0] == "term" and T.short(x[1], 2) == "str::trim_matches":
-                chars |= {y[1] for y in A.walk_value(x[2][1]) if y[0] == "lit"}
+                chars |= _lits(fx, x[2][1])
             if x[0] == "term" and T.short(x[1], 2) == "str::strip_prefix":
-                prefix |= {y[1] for y in A.walk_value(x[2][1]) if y[0] == "lit"}
+                prefix |= _lits(fx, x[2][1])
     chk.instance("C16/R3", "expression = unescape_value -> trim_matches(['/','*']) -> trim -> strip_prefix(\"bgpfu-fltr:\") -> parse", t["def"], loc_of(t.get("sp")),
                  holds=ok and chars == {"/", "*"} and prefix == {"bgpfu-fltr:"}, key="C16/R3 %s expression-chain" % fn,
                  detail=detail or "chars %s prefix %s" % (sorted(chars), sorted(prefix)))
